@@ -18,14 +18,29 @@ OUTDIR == IOEnv.JUDGE_OUT
 Bodies == [s \in 1..Len(Recs) |-> BodyMap(Core(Recs[s].sc.grammar))]
 
 HasEvs(r) == "evs" \in DOMAIN r /\ r.pn = ""
-Traces == UNION {{<<s, u, j>> : u \in {x \in 1..Len(Recs[s].units) : Recs[s].units[x].opt = ""},
+Traces == UNION {{<<s, u, j>> : u \in {x \in 1..Len(Recs[s].units) : Recs[s].units[x].opt \in {"", "i"}},
                                j \in 1..600} : s \in 1..Len(Recs)}
 Valid(T) == T[3] <= Len(Recs[T[1]].units[T[2]].runs) /\ HasEvs(Recs[T[1]].units[T[2]].runs[T[3]])
 
 VARIABLES T, l, rejected, reported
 tvars == <<T, l, rejected, reported, pos, tix, tree, maxTok, memo, stk, st, cur, ev, nhit, nadd>>
 
+\* rules the generator inlines under -inline: referenced exactly once from the rules reachable from the first rule
+\* (every action is a pseudo-rule referenced once), never the first rule
+RECURSIVE Occ(_, _), OccL(_, _)
+OccL(es, r) == IF es = <<>> THEN 0 ELSE Occ(Head(es), r) + OccL(Tail(es), r)
+Occ(e, r) == CASE e.op = "ref" -> (IF e.r = r THEN 1 ELSE 0)
+               [] e.op \in UnaryOps -> Occ(e.a, r)
+               [] e.op \in ListOps -> OccL(e.es, r)
+               [] OTHER -> 0
+RECURSIVE SumOcc(_, _, _)
+SumOcc(B, S, r) == IF S = {} THEN 0 ELSE LET q == CHOOSE q \in S : TRUE IN Occ(B[q], r) + SumOcc(B, S \ {q}, r)
+InlinedSet(s) ==
+  LET B == Bodies[s] first == Recs[s].sc.grammar.rules[1].name reach == Reachable(B, first) IN
+  {r \in reach \ {first} : SumOcc(B, reach, r) = 1} \cup {ActName(k) : k \in 0..63}
+Inl == [s \in 1..Len(Recs) |-> InlinedSet(s)]
 Run == Recs[T[1]].units[T[2]].runs[T[3]]
+InlOf == IF Recs[T[1]].units[T[2]].opt = "i" THEN Inl[T[1]] ELSE {}
 Sc == Recs[T[1]].sc
 Pl == Sc.plan[Run.c]
 EntryOf == IF Pl.entry = "" THEN Sc.grammar.rules[1].name ELSE Pl.entry
@@ -37,7 +52,7 @@ Init == /\ T \in {t \in Traces : Valid(t)}
 MinI(a, b) == IF a < b THEN a ELSE b
 StepAndCompare ==
   /\ ~Done /\ rejected = <<>>
-  /\ Step(Bodies[T[1]], Run.w, Pl.memo)
+  /\ StepInl(Bodies[T[1]], Run.w, Pl.memo, InlOf)
   /\ LET n == Len(ev')
          got == SubSeq(Run.evs, l, MinI(l + n - 1, Len(Run.evs)))
      IN IF ev' = got THEN l' = l + n /\ rejected' = <<>>
@@ -59,7 +74,7 @@ ClassOf(rj) ==
 Report ==
   /\ rejected # <<>> /\ ~reported /\ reported' = TRUE
   /\ ndJsonSerialize(OUTDIR \o "/l2_" \o ToString(T[1]) \o "_" \o ToString(T[3]) \o ".ndjson",
-       <<[kind |-> "l2", id |-> Sc.id, opt |-> "", i |-> Run.i, c |-> Run.c, h |-> Run.h, s |-> Run.s, w |-> Run.w,
+       <<[kind |-> "l2", id |-> Sc.id, opt |-> Recs[T[1]].units[T[2]].opt, i |-> Run.i, c |-> Run.c, h |-> Run.h, s |-> Run.s, w |-> Run.w,
           field |-> rejected[1], class |-> ClassOf(rejected), at |-> rejected[2], want |-> rejected[3], got |-> rejected[4],
           state |-> [pos |-> pos, tix |-> tix, st |-> st, live |-> SubSeq(tree, 1, MinI(tix, Len(tree)))]]>>)
   /\ UNCHANGED <<T, l, rejected, pos, tix, tree, maxTok, memo, stk, st, cur, ev, nhit, nadd>>
